@@ -76,10 +76,16 @@ func Listen(
 // PubkeyFingerprint returns the SHA256 hash of the public key fingerprint
 // for the cert.  This is used for curl's --pinnedpubkey.
 func PubkeyFingerprint(cert *x509.Certificate) (string, error) {
-	/* Marshal to nicely-hashable DER. */
-	b, err := x509.MarshalPKIXPublicKey(cert.PublicKey)
-	if nil != err {
-		return "", fmt.Errorf("marshalling to DER: %w", err)
+	/* curl hashes the SubjectPublicKeyInfo as it is in the certificate
+	on the wire, which isn't necessarily what we'd get by marshalling the
+	parsed key again.  Only marshal if we've no DER to hash. */
+	b := cert.RawSubjectPublicKeyInfo
+	if 0 == len(b) {
+		var err error
+		b, err = x509.MarshalPKIXPublicKey(cert.PublicKey)
+		if nil != err {
+			return "", fmt.Errorf("marshalling to DER: %w", err)
+		}
 	}
 
 	/* Hash and encode. */
